@@ -24,11 +24,12 @@ type c02Out struct {
 }
 
 type c02State struct {
-	ctx  sdk.Context
-	w    *world.L1
-	outs []c02Out
-	paid [3]bool
-	fx   *c02Fixture
+	ctx   sdk.Context
+	w     *world.L1
+	outs  []c02Out
+	paid  [3]bool
+	fx    *c02Fixture
+	setup string // non-empty: the fixture's own valid claim on bridge 2 was refused (reported by Check)
 }
 
 type c02Fixture struct {
@@ -87,7 +88,7 @@ func (c02Sys) Root() *c02State {
 	}
 	ctx = world.Advance(ctx, c02Period)
 	if res := w.Deliver(ctx, claimMsg(t2.Ws[0], t2.Tree.Proof(0), 1, "bob", t2.Version, t2.StorageRoot[:], t2.BlockHash)); !res.OK() {
-		panic(res.Err)
+		return &c02State{ctx: ctx, w: w, fx: fx, setup: res.Err.Error()}
 	}
 	return &c02State{ctx: ctx, w: w, fx: fx}
 }
@@ -233,6 +234,9 @@ func (c02Sys) Step(s *c02State, l engine.Letter) (*c02State, string, *engine.Vio
 }
 
 func (c02Sys) Check(s *c02State) *engine.Violation {
+	if s.setup != "" {
+		return viol("valid-claim-against-a-final-output-is-paid", "building the start state: the single withdrawal of bridge 2, committed by its final output 1, was refused: %s", s.setup)
+	}
 	// bridge 2's withdrawal was paid before the exploration started: it stays claimed, whatever happens
 	// on bridge 1 (and through every restart), and can never be paid again
 	{
